@@ -385,9 +385,22 @@ CLAIMED["C24"] = dict(
          "outside the outer window after __init__ and both kinds of update.",
     note=TB + "; eigh / SVD / inv external; select_window_degen is C15's contract; site-symmetry symmetrizers are identities here (C20 / C21 territory)")
 
+CLAIMED["C21"] = dict(
+    text="The REAL text of Orbitals.rot_orb_basis / rot_orb (sympy expansion of the orbital polynomials in rotated coordinates) is executed with "
+         "the rotation given symbolically by an unnormalised quaternion, R~(q) = |q|^2 R(q) (every proper rotation), np.linalg.inv replaced by the "
+         "transpose; the entries of the result are homogeneous polynomials in q and the claims become polynomial identities decided by sympy "
+         "expansion (float coefficients compared to 1e-9): orthogonality D D^T = |q|^(4l) 1 for ALL proper rotations and D(-R) = (-1)^l D(R) "
+         "for the improper ones, shells s, p, d (quick) and f (thorough); identity; the composition law D(R1 R2) = D(R1) D(R2) for ALL pairs, shells "
+         "s, p (quick), d (thorough), with the opposite order refuted (non-vacuity). Hybrids (rot_orb = H D H^T): orthogonal for sp3 under all "
+         "rotations, for sp2 / pxy / pz under all rotations about z, for sp / p2 about x, for t2g / eg / sp3d2 under the 24 proper cubic "
+         "rotations. For rotations that do not preserve the span of a hybrid set the matrix is a compression and NOT orthogonal: the property as "
+         "stated does not hold there (known finding K3, recorded). OrbitalRotator.__call__: local bases enter as basis2 R basis1^T, per-(rotation, "
+         "shell) cache, block-diagonal composite shells. The f-shell composition law is covered by the stand-in only (installed code, random proper "
+         "and improper rotations); the Wannier-function representation matrices of Dwann are not covered.",
+    note=TB + "; sympy's polynomial arithmetic is the computation the code itself relies on (trusted); identities verified on the cone over SO(3) hold on SO(3) by homogeneity")
+
 NOT_APPLICABLE = {
     "C20": "real-space symmetrisation is a data-dependent floating-point orbit search over irrep objects; its postcondition is only statable through an eigen-solver, no discrete/algebraic kernel is left once externals are abstracted (DESIGN section 7)",
-    "C21": "rotation matrices are produced inside sympy (polynomial expansion + evalf); orthogonality/composition live in that CAS computation, outside any contract this engine can generate VCs for (DESIGN section 7)",
     "C28": "agreement only up to discretisation error on converged grids: a numerical-analysis statement, not a postcondition of a call (DESIGN section 7)",
 }
 
